@@ -23,9 +23,18 @@ def probe_impl(E):
             % (D.helper_impl(E), D.payload_ok_fn(E), D.inst(E), E["name"], captured_fn(E)))
 
 
+def err_type(E):
+    """the error type the driver names.  With parse_err_ty it is the user's type, without it strum::ParseError (C18 decides this
+    through the annotation itself); next to an enabled default variant no parse can fail and no property says which of the two
+    the associated type is, so the driver takes whatever FromStr declares"""
+    if E["perr"] and any(v["def"] and not v["dis"] for v in E["variants"]):
+        return "<%s as ::core::str::FromStr>::Err" % D.inst(E)
+    return "UserErr" if E["perr"] else "strum::ParseError"
+
+
 def parse_module(E, extra_derives=(), std_derives=("Debug", "Clone", "PartialEq")):
     """module that parses every input with FromStr and TryFrom"""
-    err = "UserErr" if E["perr"] else "strum::ParseError"
+    err = err_type(E)
     src = HEADER
     src += D.print_enum(E, ["EnumString"] + list(extra_derives), std_derives=std_derives) + "\n"
     src += probe_impl(E)
@@ -65,7 +74,7 @@ def names_module(E, derives=("Display", "AsRefStr", "IntoStaticStr", "VariantNam
         src += D.print_enum(B, ["ToString", "AsStaticStr"]) + "\n"
     did = E["id"]
     body = []
-    err = "UserErr" if E["perr"] else "strum::ParseError"
+    err = err_type(E)
     for i, v in enumerate(E["variants"]):
         if v["dis"]:
             continue
@@ -156,7 +165,7 @@ def display_module(E, facts, derives=("Display",)):
                 if v["kind"] == "tuple":
                     args = ", ".join("v%d" % n for n in range(len(vs)))
                 else:
-                    used = sorted({p["f"] for p in v["ph"]})
+                    used = sorted({p["f"] for p in v["ph"]} | {p["param"] for p in v["ph"] if p.get("param")})
                     args = ", ".join("%s = v%d" % (v["fields"][f - 1]["name"], f - 1) for f in used)
                 blk.append("            let std = format!(%s, %s);" % (lit, args))
                 frs = []
@@ -166,9 +175,15 @@ def display_module(E, facts, derives=("Display",)):
                     if key in seen:
                         continue
                     seen.add(key)
-                    fl = "{:%s}" % p["spec"] if p["spec"] else "{}"
-                    frs.append('format!("{{\\"f\\":%d,\\"spec\\":{},\\"out\\":{}}}", jcps(%s), jcps(&format!("%s", v%d)))'
-                               % (p["f"], D.rs_str([ord(c) for c in p["spec"]]), fl, p["f"] - 1))
+                    if p.get("param"):
+                        # the parameter is passed positionally to std's own rendering of this one field
+                        fl = "{0:%s}" % p["tmpl"].replace("@", "1")
+                        fargs = "v%d, v%d" % (p["f"] - 1, p["param"] - 1)
+                    else:
+                        fl = "{:%s}" % p["spec"] if p["spec"] else "{}"
+                        fargs = "v%d" % (p["f"] - 1)
+                    frs.append('format!("{{\\"f\\":%d,\\"spec\\":{},\\"out\\":{}}}", jcps(%s), jcps(&format!("%s", %s)))'
+                               % (p["f"], D.rs_str([ord(c) for c in p["spec"]]), fl, fargs))
                 blk.append("            let fr: Vec<String> = vec![%s];" % ", ".join(frs))
                 blk.append('            o.line(&format!("{{\\"op\\":\\"interp\\",\\"def\\":%d,\\"i\\":%d,\\"obs\\":{},\\"std\\":{},\\"fr\\":{}}}", jcps(&obs), jcps(&std), jlist(&fr)));' % (did, k))
                 blk.append("        });")
@@ -192,7 +207,7 @@ def forward_module(E, with_parse=True):
     if with_parse:
         src += probe_impl(E)
     did = E["id"]
-    err = "UserErr" if E["perr"] else "strum::ParseError"
+    err = err_type(E)
     body = []
     for i, v in enumerate(E["variants"]):
         k = i + 1
